@@ -186,8 +186,8 @@ pub fn drive(log: &mut Log) {
         if !log.begin("file", json!({"k": k})) {
             continue;
         }
-        let dir = std::path::Path::new(&log.opts.out).parent().map(|p| p.to_path_buf()).unwrap_or_default();
-        let path = dir.join(format!("bed-{}-{}-{}.tmp", log.opts.shard, seed, case));
+        // (unique per driver process: the same shard may run in two builds side by side)
+        let path = std::path::PathBuf::from(format!("{}.bed-{}-{}.tmp", log.opts.out, seed, case));
         let r1: Vec<Rec> = (0..rng.range(3, 5)).map(|_| rand_rec(&mut rng, k, log)).collect();
         let r2: Vec<Rec> = (0..rng.range(1, 2)).map(|_| rand_rec(&mut rng, k, log)).collect();
         let r4: Vec<Rec> = (0..rng.range(2, 4)).map(|_| rand_rec(&mut rng, k, log)).collect();
